@@ -211,8 +211,8 @@ class MergeIndexMap(Contract):
 
 
 def contracts():
-    from contracts import C12_support, C12_bases, C12_inverse, C12_ctor
-    return [MergeIndexMap(True), MergeIndexMap(False)] + C12_support.contracts() + C12_bases.contracts() + C12_inverse.contracts() + C12_ctor.contracts()
+    from contracts import C12_support, C12_bases, C12_inverse, C12_ctor, C12_tables
+    return [MergeIndexMap(True), MergeIndexMap(False)] + C12_support.contracts() + C12_bases.contracts() + C12_inverse.contracts() + C12_ctor.contracts() + C12_tables.contracts()
 
 
 from contracts.C12_support import PARKED  # noqa: E402  (documented _int_or_vec clause that fails on the unchanged tree: candidate defect)
